@@ -75,6 +75,16 @@ def main():
         want = spec_parse(v)
         if got != want:
             R.violation("property", "JAXTYPING_DISABLE=%r in the environment: import gives %s, documented rule %s" % (v, got, want), {"env": v, "got": got}, key={"kind": "env", "value": v})
+    for e in out.get("env_then_update", []):
+        n += 1
+        d0 = spec_parse(e["env"]) == "True" if e["env"] else False
+        def pv(x):
+            return {"True": True, "False": False}.get(x, spec_parse(x.strip("'")) == "True")
+        d1, d2 = pv(e["updates"][0]), pv(e["updates"][1])
+        want = str([d0, "returns" if d0 else "TypeCheckError", d1, "returns" if d1 else "TypeCheckError", d2, "returns" if d2 else "TypeCheckError"])
+        if e["got"] != want:
+            R.violation("property", "JAXTYPING_DISABLE=%r in the environment, then config.update('jaxtyping_disable', %s), then (.., %s): [flag, ill-typed call] after each step is %s, expected %s (the last writer wins; an already decorated function follows the flag)" % (
+                e["env"], e["updates"][0], e["updates"][1], e["got"], want), {"env_then_update": e, "expected": want}, key={"kind": "env-then-update", "env": e["env"]})
     # behaviour
     nontriv = set()
     samples = []
@@ -82,7 +92,7 @@ def main():
         pass
     idx = 0
     for sched in scheds:
-        for _ in range(10):      # 10 callable kinds per schedule, in worker order
+        for _ in range(15):      # 15 callable kinds per schedule, in worker order
             r = out["behaviour"][idx]; idx += 1
             kname = r["kind"]
             ntc = kname.startswith("ntc_")
@@ -90,6 +100,10 @@ def main():
                 if st is None:
                     continue
                 n += 1
+                if (kname.startswith("none") or kname.startswith("old-")) and not st["flag"]:
+                    if kname.startswith("old-") and ((op[1] == "bad" and st["wrapped"][0] != "exc") or (op[1] == "good" and st["wrapped"][0] != "ret")) and not (len(op) > 2 and op[2] == "flip"):
+                        R.violation("property", "checking is on (legacy spelling) but the verdict is wrong: %s %s" % (st["wrapped"], desc), {"kind": kname, "schedule": sched, "step": st}, key={"kind": "old-style-on", "callable": kname})
+                    continue          # typechecker=None never checks; with checking ON it still opens its own context -- only the switched-off state is judged for it
                 off = st["flag"] or ntc
                 R.count("call:%s:%s" % ("off" if off else "on", op[1]))
                 desc = "%s, decorated while disabled=%s, ops %s, at call(%s) with flag=%s" % (kname, sched.get("decorate_disabled", False), sched["ops"], op[1], st["flag"])
